@@ -237,7 +237,7 @@ CHECKS['C17'] = {
              'thorough': [J('c17_socks.cpp', ['MODE=0'], wall=600, markers=(1, 2, 3), opts={'max_instr': 30000000}),
                           J('c17_socks.cpp', ['MODE=1'], wall=1700, markers=(1, 2), opts={'max_instr': 30000000})]},
     'bounds': {'quick': 'valid: v5 CONNECT by IPv4 / by host name and v4 CONNECT to a reachable, refusing or unresolvable target, 4 symbolic payload bytes relayed and answered (xor 0x55) by the target, request and payload each cut in up to 2 writes; '
-                        'reply codes and command counters checked. malformed: SOCKS4 or 5 server, every negotiation byte symbolic (version, method count from {0,1,2,255}, methods, 9/10 request bytes), 0 or 4 trailing symbolic bytes (quick; 0/2/4 and 3 cut patterns in thorough), '
+                        'reply codes and command counters checked. malformed: SOCKS4 or 5 server, every negotiation byte symbolic (version, method count from {0,1,2,255}, methods, 9/10 request bytes; in the quick tier: SOCKS5 only, the 4 bytes the parser branches on symbolic and address/port from a small alphabet), 0 or 4 trailing symbolic bytes (quick; 0/2/4 and 3 cut patterns in thorough), '
                         'early end-of-file after 40 ms, while a well-behaved client negotiates and exchanges 4 bytes through the same proxy',
                'thorough': 'same harness, larger wall budget'},
     'outside': ['BIND and UDP ASSOCIATE relaying (negotiation bytes for them are covered by the malformed-client mode, their relay loops are not)', 'the over-long read case (needs more than 64 KiB in flight)',
